@@ -137,6 +137,27 @@ def run(ctx):
                                           nonfinite=rng.choice([0, 0.3]))[0]
         if rng.random() < 0.1:       # everything -inf / NaN
             spec["table"] = {k: (rng.choice([-INF, -INF, NAN]), None) for k in spec["table"]}
+        # a memory_warm_start frame holding the TRUE scores of some points (as an earlier search_data would), with a permuted /
+        # score-sorted / filtered index: the best result must still satisfy objective(best_para) == best_score
+        if rng.random() < 0.3:
+            import pandas as pd
+            names_ = list(spec["space"].keys())
+            allp = gen.all_positions(spec["space"])
+            ps = rng.sample(allp, min(len(allp), rng.randint(2, 8)))
+            rows = [dict({n_: spec["space"][n_][i_] for n_, i_ in zip(names_, p_)}, score=float(spec["table"][p_][0])) for p_ in ps]
+            df = pd.DataFrame(rows)
+            how = rng.choice(["sorted", "shuffled", "filtered", "plain"])
+            if how == "sorted":
+                df = df.sort_values("score")
+            elif how == "shuffled":
+                order = list(range(len(df)))
+                rng.shuffle(order)
+                df = df.iloc[order]
+            elif how == "filtered" and len(df) > 2:
+                df = df.iloc[1:]
+            c0 = spec["calls"][rng.randrange(len(spec["calls"]))]
+            c0["memory"] = True
+            c0["memory_warm_start"] = df
         v1, v2 = rng.sample(VERBS, 2)
         for c in spec["calls"]:
             c["verbosity"] = v1
